@@ -61,7 +61,8 @@ class C12(Prop):
         "wq_no_lost_wakeup_reader", "wq_wake_delivers", "wq_no_overflow", "wq_run_reachable",
         "wq_reset_while_pending_loses_wakeup", "wq_unrepaired_remove_loses_block",
         "codec_unpack5_pack5", "codec_unpack2_pack2", "codec_unpack2_pack5", "codec_packet_count", "codec_eod_last",
-        "codec_unpack_chunk", "th_barrier", "th_counter", "th_no_lost_wakeup_master", "th_progress")]
+        "codec_unpack_chunk", "th_barrier", "th_counter", "th_no_lost_wakeup_master", "th_progress",
+        "loader_nload_largest_prefix", "loader_chunks_partition", "pipe_order", "pipe_eof_after_all", "pipe_lanes")]
     claimed = True
     level_text = ("Theorems for every schedule of one reader and any number of workers (one atomic step per mutex-protected region, spurious wake-ups allowed): "
                   "conservation and exclusivity of blocks, FIFO on both queues (history variables), counters in range and pendingWorkers = number of sleepers, "
